@@ -147,7 +147,7 @@ func mustJSON(v interface{}) json.RawMessage {
 
 func gen(t *rapid.T) Case {
 	// definitions: the definition prefix of a generated history (no executions)
-	h := hist.Gen(t, hist.Options{MaxOps: 1, BadMembers: rapid.IntRange(0, 2).Draw(t, "bad") == 0, RuntimeBad: true, AttrHelpers: true})
+	h := hist.Gen(t, hist.Options{MaxOps: 1, MixedHelpers: rapid.Bool().Draw(t, "mixedh"), BadMembers: rapid.IntRange(0, 2).Draw(t, "bad") == 0, RuntimeBad: true, AttrHelpers: true})
 	var defs []hist.Op
 	for _, op := range h.Ops {
 		if hist.IsDef(op.Kind) {
@@ -156,11 +156,11 @@ func gen(t *rapid.T) Case {
 	}
 	h.Ops = defs
 	all := hist.DefinedByOps(defs, h.RootName)
-	// helpers (h0, h1) are only reached through their callers: executing an attribute-context helper directly would
-	// be a text-context use of it (the K-rederive zone, where sequential results are order dependent)
+	// (helpers are executed directly as well: since F-rederive a text-context use of a helper that members need in
+	// an attribute does not make the sequential results order dependent any more)
 	var names []string
 	for _, n := range all {
-		if !(len(n) == 2 && n[0] == 'h') && !hist.NoDirect(n) && n != "rec" && n != "ry" && n != "rz" {
+		if n != "rec" && n != "ry" && n != "rz" {
 			names = append(names, n)
 		}
 	}
